@@ -81,7 +81,9 @@ class Symbol(ILispObject, INamed, IWithMeta):
             return True
         if other._ns is None:
             return False
-        return self._ns < other._ns or self._name < other._name
+        if self._ns != other._ns:
+            return self._ns < other._ns
+        return self._name < other._name
 
     def __call__(self, m: IAssociative | IPersistentSet, default=None):
         if isinstance(m, IPersistentSet):
